@@ -109,7 +109,7 @@ theorem feed_chunks (s : St) (c : Bytes) (cs : List Bytes) :
 def Reachable (s : St) : Prop :=
   ∃ t c ops, c < 2 ^ 31 ∧ s = run { timeoutMs := t, counter := c, base := c } ops
 
-theorem init_inv' (t c : Nat) : Inv { timeoutMs := t, counter := c, base := c } := by
+theorem init_inv2 (t c : Nat) : Inv { timeoutMs := t, counter := c, base := c } := by
   constructor
   · simp
   · intro r hr; cases hr
@@ -120,7 +120,7 @@ theorem init_inv' (t c : Nat) : Inv { timeoutMs := t, counter := c, base := c } 
   · intro i hi; cases hi
   · intro _; rfl
 
-theorem init_invM' (t c : Nat) (hc : c < 2 ^ 31) : InvM { timeoutMs := t, counter := c, base := c } := by
+theorem init_invM2 (t c : Nat) (hc : c < 2 ^ 31) : InvM { timeoutMs := t, counter := c, base := c } := by
   constructor
   · intro r hr; cases hr
   · intro e he; cases he
@@ -138,7 +138,7 @@ theorem init_invG (t c : Nat) (hc : c < 2 ^ 31) : InvG { timeoutMs := t, counter
 
 theorem reachable_inv {s : St} (h : Reachable s) : Inv s ∧ InvM s := by
   obtain ⟨t, c, ops, hc, rfl⟩ := h
-  exact ⟨run_inv _ ops (init_inv' t c), run_invM _ ops (init_invM' t c hc)⟩
+  exact ⟨run_inv _ ops (init_inv2 t c), run_invM _ ops (init_invM2 t c hc)⟩
 
 theorem reachable_invG {s : St} (h : Reachable s) : InvG s := by
   obtain ⟨t, c, ops, hc, rfl⟩ := h
